@@ -21,11 +21,14 @@ func vBound(name string) []byte {
 	return vKey(name)
 }
 
-func vParent() *vstore.Mem {
+func vParent() *vstore.Mem { return vParentUpTo(2) }
+
+// vParentUpTo: a parent with 0..1 entries (quick) or 0..max entries (thorough)
+func vParentUpTo(max int) *vstore.Mem {
 	m := vstore.New()
 	n := zz.Choice("nparent", 2)
 	if zz.Thorough() {
-		n = zz.Choice("nparent", 3)
+		n = zz.Choice("nparent", max+1)
 	}
 	for i := 0; i < n; i++ {
 		k := vKey("pk")
@@ -167,7 +170,7 @@ func VerifC15_Nested() {
 // the overlay as it was when it was created - later Set/Delete of keys in its range (also of keys already dirty) and
 // the creation of further iterators do not change what it returns - and a new iterator shows the new overlay.
 func VerifC15_OpenIterator() {
-	parent := vParent()
+	parent := vParentUpTo(1) // thorough deepens this harness by a second write before the iterator, not by a larger parent
 	model := parent.Clone()
 	w := NewStore(parent)
 	vWrite("a", w, model, 0)
